@@ -221,6 +221,38 @@ def judge(c, res):
     if len(bad):
         k = int(bad[0])
         add_violation(res, "time_function_pointwise", dict(case, t=float(tg[k])), float(exp[k]), float(got[k]), "time function differs from the reference waveform")
+    # the same object after its fields were reassigned (waveforms are plain mutable dataclasses): its time function and
+    # its series must both be those of the new field values -- a value computed before the assignment must not survive
+    bump(res["hits"], "reassigned_fields")
+    ph2, T2 = ph + 0.75, 1.5 * T
+    try:
+        wave.phase = ph2
+        wave.period = T2
+        tf2 = wave.time_function
+        fs2 = pf.fourier_series(wave)
+        fresh = pf.fourier_series(pf.periodic_function(wt)(period=T2, amplitude=a, phase=ph2, offset=off))
+        tg2 = np.linspace(-0.7 * T2, 1.9 * T2, 131)
+        bp2 = breakpoints(wt, T2, ph2)
+        if bp2:
+            dist = np.min(np.abs(((tg2[:, None] - np.asarray(bp2)[None, :] + T2 / 2) % T2) - T2 / 2), axis=1)
+            tg2 = tg2[dist > 1e-6 * T2]
+        got2 = np.asarray(tf2(tg2), dtype=float)
+        exp2 = ref_wave(wt, a, T2, ph2, off, tg2)
+        bad2 = np.where(np.abs(got2 - exp2) > 1e-6 * scale + 1e-9 * scale)[0]
+        if len(bad2):
+            k = int(bad2[0])
+            add_violation(res, "reassigned_fields", dict(case, phase2=ph2, period2=T2, t=float(tg2[k])), float(exp2[k]), float(got2[k]),
+                          "after assigning phase and period, the time function is not that of the new values")
+        for n in (0, 1, 2, 3):
+            g = (float(fs2.amplitude(n)), float(fs2.phase(n)))
+            e = (float(fresh.amplitude(n)), float(fresh.phase(n)))
+            if abs(g[0] * np.exp(1j * g[1]) - e[0] * np.exp(1j * e[1])) > tol:
+                add_violation(res, "reassigned_fields", dict(case, phase2=ph2, period2=T2, n=n), list(e), list(g),
+                              "after assigning phase and period, the series differs from that of a fresh waveform with the new values")
+                break
+    except Exception as e:
+        add_violation(res, "reassigned_fields", dict(case, phase2=ph2, period2=T2), "time function and series", "%s: %s" % (type(e).__name__, e),
+                      "reassigning phase/period raised", kind="exception:" + type(e).__name__)
     if nontrivial:
         res["nontrivial"] += 1
     if len(res["samples"]) < 1:
@@ -229,7 +261,7 @@ def judge(c, res):
 
 def vacuity(agg, tier):
     out = []
-    for k in ("coeff_matches_integral", "dc_term", "abc_consistency", "conjugate_symmetry", "bessel_parseval", "lookup_by_name", "time_function_pointwise"):
+    for k in ("coeff_matches_integral", "dc_term", "abc_consistency", "conjugate_symmetry", "bessel_parseval", "lookup_by_name", "time_function_pointwise", "reassigned_fields"):
         if agg["hits"].get(k, 0) == 0:
             out.append("sub-check %s never fired" % k)
     return out
